@@ -160,7 +160,10 @@ def build(case):
                         'stop_at': stop_at,
                         'positional': bool(case.get('positional'))},
             'random': case['draws'], 'conns': conns, 'app': app,
-            'max_polls': 50000, 'max_events': 50000}, stop_at
+            'max_polls': 50000, 'max_events': 50000,
+            # 1300 attempts with waits of up to 1000 s are months of
+            # simulated time: the clock budget is about hangs, not about that
+            'max_time_us': 10 ** 14}, stop_at
 
 
 def execute(case):
